@@ -22,7 +22,7 @@ from .rendering import BACKENDS, Rendered, render
 quiet_naunet()
 
 THEOREMS = {
-    "C01": (["NaunetProps.C01", "NaunetProps.Physics"], ["Naunet.Physics.numDens_ignores_tail", "Naunet.Physics.mu_ignores_tail",
+    "C01": (["NaunetProps.C01", "NaunetProps.Physics", "NaunetProps.C03b"], ["Naunet.SolverObj.rate_arrays_ok", "Naunet.Physics.numDens_ignores_tail", "Naunet.Physics.mu_ignores_tail",
                                   "Naunet.Physics.mu_mul_numDens",
                                   "Naunet.C01.rhs_eq_massAction", "Naunet.C01.rhs_eq_massAction_nomod",
                                   "Naunet.C01.rhs_isolated", "Naunet.C01.vars_are_reactants",
@@ -32,7 +32,7 @@ THEOREMS = {
                                   "Naunet.C02.modJac_eq_pderiv", "Naunet.pderiv_prod_yvar",
                                   "Naunet.pderiv_rhsFrom", "Naunet.pderiv_thermRhsFrom"]),
     "C03": (["NaunetProps.C03", "NaunetProps.C03b"], ["Naunet.SolverObj.init_fits", "Naunet.SolverObj.reset_fits",
-                                  "Naunet.SolverObj.history_fits",
+                                  "Naunet.SolverObj.history_fits", "Naunet.SolverObj.rate_arrays_ok",
                                   "Naunet.C03.csr_wellformed", "Naunet.C03.csr_cols_sorted_in_range",
                                   "Naunet.C03.csr_triples_iff", "Naunet.C03.csrRows_csrOf",
                                   "Naunet.C03.decodeFlat_encode", "Naunet.C03.pattern_iff",
@@ -69,12 +69,18 @@ DEFAULT_PSEUDO = ["CR", "CRP", "XRAY", "Photon", "PHOTON", "CRPHOT", "X", "M", "
 # ------------------------------------------------------------------------------------ case generation
 
 
+# a replacement rate written without blanks that is longer than one output line: it may be wrapped at operators only
+# (no hyphen in it: a line may also be broken after a minus sign, which is harmless)
+LONG_RATE = "2.5e3*zeta*pow(Tgas/300.0,0.5)*(1.0+1.0e+2/Tgas)*(1.0+2.0e+3*Tgas)*(1.0+1.0e+4*Tgas)/(1.0+3.0e+2*Tgas)*(1.0+4.0e+1/Tgas)"
+LONG_RATES = [LONG_RATE, "1.5*" + LONG_RATE, "12.25*" + LONG_RATE, "3.125e+1*" + LONG_RATE]
+
+
 def gen_case(rng, tier, pid, n):
     pool = netgen.gas_pool()
     use_ice = rng.random() < 0.3
     if use_ice:
         pool = pool + netgen.ice_pool("#")
-    grain_case = pid == "C04" and n == 3        # one network that carries its grains as species, always
+    grain_case = pid in ("C01", "C02", "C04") and n == 3        # one network that carries its grains (two charge states) as species, always
     if rng.random() < 0.15 or grain_case:
         pool = pool + [netgen.grain(0), netgen.grain(-1)]
     big = tier == "thorough" and rng.random() < 0.3
@@ -165,9 +171,12 @@ def gen_case(rng, tier, pid, n):
         idxs = [r.idx for r in reacs if r.idx != -1] or [99999]
         for _ in range(rng.randint(1, 3)):
             key = rng.choice(idxs + [99999, 0]) if indexed else rng.choice(list(range(len(reacs))) + [99999])
-            ratemod[key] = rng.choice(["1.0e-10", "2.0 * zeta", "1e-9*exp(-10.0/Tgas)", "0.0"])
+            ratemod[key] = rng.choice(["1.0e-10", "2.0 * zeta", "1e-9*exp(-10.0/Tgas)", "0.0", LONG_RATE])
         if shared is not None and rng.random() < 0.8:
             ratemod[shared] = rng.choice(["3.0e-10", "2.0 * zeta"])
+        if n in (2, 3) and idxs and idxs != [99999]:
+            for j, i_ in enumerate((idxs if indexed else list(range(len(reacs))))[:4]):
+                ratemod[i_] = LONG_RATES[j]          # (four offsets: at least one column limit falls inside a token)
     return {"species": sub, "reacs": reacs, "required": required, "entry": entry, "cooling": cooling,
             "mods": mods, "ratemod": ratemod, "indexed": indexed, "config": config, "heating": heating}
 
@@ -536,7 +545,7 @@ def run(pid: str, argv):
     all_b = list(BACKENDS)
     requests, pending = [], []
     ov_requests, ov_pending = [], []
-    compiled_jobs, physics_jobs, rhs_jobs = [], [], []
+    compiled_jobs, physics_jobs, rhs_jobs, jac_jobs = [], [], [], []
     for n in range(ncases):
         case = gen_case(chk.rng, tier, pid, n)
         ok_cool = allowed_cooling(case)
@@ -585,6 +594,20 @@ def run(pid: str, argv):
                 if not err:
                     rhs_jobs.append((case, b, rd, res[0]))
                 break
+        if pid == "C02" and case["reacs"] and not (case["cooling"] or case.get("heating")) \
+                and len(jac_jobs) < {"quick": 4, "thorough": 30}[tier] and (n % 2 == 0 or len(jac_jobs) < 2):
+            plain_mods = all(not re.search(r"[A-Za-z_]", re.sub(r"\bk\[\d+\]|\de[-+]?\d", "", f)) for _, terms in case["mods"] for f, _ in terms)
+            order = sorted(rds.items(), key=lambda kv: (kv[0] != "rosenbrock4") if not any(j[1] == "rosenbrock4" for j in jac_jobs) else 0)
+            for b, rd in order:
+                if b == "cusparse" or not plain_mods or (any(j[1] == b for j in jac_jobs[-2:]) and b != "rosenbrock4"):
+                    continue
+                try:
+                    ents, _ = jac_entries(rd)
+                except cparse.CParseError:
+                    ents = None
+                if ents is not None:
+                    jac_jobs.append((case, b, rd, ents))
+                    break
         if pid == "C03" and case["reacs"] and len(compiled_jobs) < {"quick": 4, "thorough": 24}[tier]:
             compiled_jobs += [(case, b, rds[b].path) for b in ("dense", "sparse") if b in rds]
         for b, rd in rds.items():
@@ -598,6 +621,8 @@ def run(pid: str, argv):
         if req is not None:
             requests.append(req)
             pending.append((case, rds))
+        if pid == "C03" and case["reacs"] and case["config"] == "default" and n in (2, 5, 9, 14):
+            reused_loader_check(chk, case, net, n)
         if pid == "C13" and case["reacs"] and (n % 3 == 2 or n < 4):
             reassigned_modifiers_check(chk, case, net, n)
         if pid == "C13" and case.get("_ref"):
@@ -623,6 +648,8 @@ def run(pid: str, argv):
         compiled_physics_check(chk, physics_jobs)
     if rhs_jobs:
         compiled_rhs_check(chk, rhs_jobs)
+    if jac_jobs:
+        compiled_jac_check(chk, jac_jobs)
     # ---- model correspondence
     if getattr(chk, "lean_ok", False) and requests:
         try:
@@ -667,7 +694,7 @@ def run(pid: str, argv):
             descs.append(d)
         c20.process(chk, descs, [])
     if getattr(chk, "lean_ok", False) and ov_requests:
-        ws = lambda x: None if x is None else "".join(x.split())
+        ws = cparse.token_text      # token by token: a statement wrapped inside a number or a name is another statement
         try:
             answers = lean_driver(ov_requests)
         except Exception as e:
@@ -922,7 +949,7 @@ def reassigned_modifiers_check(chk, case, net, n):
     chk.hist["modifiers-reassigned"] += 1
     chk.count(("reassigned", n), nontrivial=True)
     a, b = Rendered(scratch / "live", "dense"), Rendered(scratch / "fresh", "dense")
-    ws = lambda x: None if x is None else "".join(x.split())
+    ws = cparse.token_text
     try:
         ra, rb = [(i, ws(r), ws(c)) for i, r, c in a.rates("k")], [(i, ws(r), ws(c)) for i, r, c in b.rates("k")]
         fa, fb = {k: poly_of_text(v) for k, v in a.fex().items()}, {k: poly_of_text(v) for k, v in b.fex().items()}
@@ -1002,6 +1029,131 @@ def compiled_rhs_check(chk, jobs):
                                   f"1): ydot[{bad[0]}] = {bad[1]!r}, the mass-action sum over this call's rate coefficients is {bad[2]!r}",
                                   input=summ)
                     break
+
+
+def compiled_jac_check(chk, jobs):
+    """What the emitted `j(r, c) = …` / `IJth(…) = …` / `data[n] = …` statements say is compared symbolically; what the compiled
+    function leaves in the matrix also depends on what it does *around* them.  The rendered Jacobian function is compiled and
+    called the way its integrator calls it (CVODE zeroes the matrix first; rosenbrock4 hands a pre-sized matrix that it has
+    overwritten in place since the last call): after the first and after the second call every stored entry must be the value
+    of the emitted entry and every other entry zero."""
+    import math
+    import subprocess
+    from concurrent.futures import ThreadPoolExecutor
+    from . import cbuild, ceval
+    from .common import ROOT
+
+    def one(job):
+        case, b, rd, ents = job
+        path = Path(rd.path)
+        files = [path / "src" / ("naunet_ode.cpp" if b == "rosenbrock4" else "naunet_rates.cpp"),
+                 path / "src" / "naunet_physics.cpp", path / "src" / "naunet_constants.cpp", path / "src" / "naunet_utilities.cpp"]
+        if b != "rosenbrock4":
+            files += [path / "src" / "naunet_fex.cpp", path / "src" / "naunet_jac.cpp"]
+        exe = path / "c02_jac"
+        defs = {"rosenbrock4": ["C02_ODEINT"], "sparse": ["C02_SPARSE"]}.get(b, [])
+        ok, err = cbuild.build(path, ROOT / "shim" / "c02_jac_driver.cpp", exe, b, files=[f for f in files if f.exists()], defines=defs)
+        if not ok:
+            return job, "build", err, None
+        y = [round(0.5 + 0.13 * ((5 * i + 2) % 17), 3) for i in range(rd.neqns)]
+        r = subprocess.run([str(exe)], input="300.0\n" + " ".join(repr(v) for v in y) + "\n", capture_output=True, text=True, timeout=300)
+        lines = r.stdout.strip().split("\n")
+        if r.returncode != 0 or len(lines) != 3:
+            return job, "run", f"rc={r.returncode} {r.stderr[-300:]}", None
+        return job, None, lines, y
+
+    with ThreadPoolExecutor(8) as ex:
+        for (case, b, rd, ents), stage, out, y in ex.map(one, jobs):
+            summ = case_summary(case)
+            chk.hist["compiled-jac"] += 1
+            if stage is not None:
+                chk.corr_break("compiled-jac", summ, None, f"{stage}: {out[-500:]}")
+                continue
+            k = [0.0 if x in ("nan", "-nan") else float(x) for x in out[0].split()]
+            inv = {}
+            for name, slot in rd.idx.items():
+                inv.setdefault(slot, name)
+            env = {f"y[{inv[i]}]": y[i] for i in range(rd.neqns) if i in inv}
+            env.update({f"k[{i}]": v for i, v in enumerate(k)})
+
+            class Env(dict):
+                def __missing__(self, key):
+                    raise KeyError(key)
+            try:
+                want = {rc: float(ceval.ev(cparse.parse_expr(t), Env(env))) for rc, t in ents.items()}
+            except (KeyError, cparse.CParseError, ValueError, ZeroDivisionError, OverflowError):
+                chk.hist["compiled-jac:not-evaluable"] += 1
+                continue
+            n = rd.neqns
+            for call, line in enumerate(out[1:], 1):
+                vals = [float(x) for x in line.split()]
+                if len(vals) != n * n:
+                    chk.corr_break("compiled-jac", summ, None, f"{len(vals)} values for a {n}x{n} matrix")
+                    break
+                bad = None
+                for i in range(n):
+                    for j in range(n):
+                        w = want.get((i, j), 0.0)
+                        g = vals[i * n + j]
+                        if not (abs(g - w) <= 1e-10 * max(abs(w), sum(abs(x) for x in k) * 1e-4, 1e-300)):
+                            bad = (i, j, g, w)
+                            break
+                    if bad:
+                        break
+                if bad:
+                    chk.violation({"kind": "compiled-jac-differs", "backend": b, "call": "first" if call == 1 else "later",
+                                   "omitted_entry": (bad[0], bad[1]) not in want},
+                                  f"compiled {b} Jacobian, call {call} on the same matrix object: entry ({bad[0]},{bad[1]}) "
+                                  f"[{inv.get(bad[0])}, {inv.get(bad[1])}] is {bad[2]!r}; the emitted entry "
+                                  f"{'evaluates to' if (bad[0], bad[1]) in want else 'is omitted, i.e.'} {bad[3]!r}", input=summ)
+                    break
+
+
+def reused_loader_check(chk, case, net, n):
+    """A TemplateLoader object may render the templates of a project one at a time, or be kept by a script that edits its network
+    between renderings: what it writes must describe the network as it is at that call.  One loader renders the network, the
+    network gets one more reaction (with a species it did not have), the same loader renders again; a fresh loader on the edited
+    network must give the same files - sizes, index macros, CSR arrays, rate statements and pattern file included."""
+    from naunet.reactions import Reaction
+    from naunet.reactiontype import ReactionType as RT
+    from naunet.templateloader import TemplateLoader
+    from .rendering import BACKENDS as BK
+    scratch = chk.scratch / f"case{n}-reused-loader"
+    held = [s.name for s in net.species]
+    if not held:
+        return
+    extra = next((x for x in ("Ar", "Ne", "Ca", "Ni", "F") if x not in held), None)
+    if extra is None:
+        return
+    for b in ("sparse", "dense"):
+        try:
+            with silenced():
+                tl = TemplateLoader(*BK[b])
+                (scratch / f"{b}-first").mkdir(parents=True, exist_ok=True)
+                tl.render("proj", net, path=scratch / f"{b}-first", jac_pattern=True)
+                if b == "sparse":
+                    net.add_reaction(Reaction([held[0], extra], [held[-1], extra, extra], alpha=2.5e-10, reaction_type=RT.GAS_TWOBODY,
+                                              idxfromfile=987654))
+                (scratch / f"{b}-again").mkdir(parents=True, exist_ok=True)
+                tl.render("proj", net, path=scratch / f"{b}-again", jac_pattern=True)
+                render(net, b, scratch / f"{b}-fresh", jac_pattern=True)
+        except Exception as e:
+            chk.hist["reused-loader-refused:" + type(e).__name__] += 1
+            return
+        chk.hist["reused-loader"] += 1
+        chk.count(("reused-loader", n, b), nontrivial=True)
+        diff = []
+        for f in sorted(p for p in (scratch / f"{b}-fresh").rglob("*") if p.is_file()):
+            rel = f.relative_to(scratch / f"{b}-fresh")
+            g = scratch / f"{b}-again" / rel
+            if not g.exists() or g.read_bytes() != f.read_bytes():
+                diff.append(str(rel))
+        if diff:
+            chk.violation({"kind": "reused-loader-stale", "backend": b},
+                          f"a TemplateLoader that had rendered the network before renders, after the network got another reaction, files that "
+                          f"a fresh loader does not: {diff[:6]} (sizes and index macros of the edited network next to arrays of the old one)",
+                          input=case_summary(case), added_reaction=f"{held[0]} + {extra} -> {held[-1]} + {extra} + {extra}")
+            return
 
 
 def slot_identity_check(chk):
@@ -1314,6 +1466,15 @@ def oracle_c04(chk, case, net, rd, rds):
             spec[s.key] = s
     for s in case["required"]:
         spec[s.key] = s
+    # every species' derivative is assigned by the function: the integrators hand over an output vector that is not cleared, so a
+    # species without a statement (one that takes part in no reaction, say) keeps whatever the vector held and its element and charge
+    # content is not conserved
+    for k, s in spec.items():
+        if rd.idx[names[k]] not in fx:
+            chk.violation({"kind": "missing-equation", "backend": rd.backend, "species": names[k]},
+                          f"the right-hand side has no statement for {names[k]} ({s.name}): its derivative is whatever the output vector "
+                          f"held before the call, not 0", input=summ)
+            return
     # ground truth weights
     elements = sorted({e for s in spec.values() for e, _ in s.comp})
     for el in elements + ["<charge>"]:
@@ -1382,7 +1543,7 @@ def oracle_c13(chk, case, net, rd, rds):
         render(ref_net, rd.backend, p)
         cache[rd.backend] = Rendered(p, rd.backend)
     ref = cache[rd.backend]
-    ws = lambda s: None if s is None else "".join(s.split())
+    ws = cparse.token_text      # the user's expression, token by token: wrapped between tokens if need be, never inside one
     # ---- rate modifier
     got = rd.rates("k")
     base = ref.rates("k")
